@@ -24,6 +24,31 @@ def step_cases(rng, tier):
         l = cases.set_steps(l, rng.choice([1, 2, 3]))
         lines.append(l)
         meta[cid] = ("step", "IM=%s irq=%s len=%d" % (kv["IM"], kind, len(data)))
+    # mode 0 with LONG supplied data whose own operand reads fall into the window the data occupies (its tail included)
+    for j in range(60 if tier == "quick" else 2000):
+        cid = "m%d" % j
+        l = cases.make_case(rng, cid, ("main", 0, [0x00]), io=1)
+        pc = rng.choice([0x0100, 0x8000, 0x4321, rng.below(0xFF00)])
+        ln = rng.choice([5, 6, 8, 12])
+        off = rng.below(ln)
+        tgt = (pc + off) & 0xFFFF
+        shape = rng.below(4)
+        if shape == 0:
+            data = [0x3A, tgt & 255, tgt >> 8] + [rng.below(256) for _ in range(ln - 3)]           # LD A,(nn)
+            kv = {}
+        elif shape == 1:
+            data = [rng.choice([0x7E, 0x46, 0x86, 0xBE, 0x34])] + [rng.below(256) for _ in range(ln - 1)]   # ... (HL)
+            kv = {"H": tgt >> 8, "L": tgt & 255}
+        elif shape == 2:
+            data = [rng.choice([0xE1, 0xC1, 0xC9])] + [rng.below(256) for _ in range(ln - 1)]          # POP / RET from the window
+            kv = {"SP": tgt}
+        else:
+            data = [0x2A, tgt & 255, tgt >> 8] + [rng.below(256) for _ in range(ln - 3)]           # LD HL,(nn): two bytes
+            kv = {}
+        l = cases.patch_state(l, PC=pc, IM=0, IFF1=1, IFF2=1, **kv)
+        l = cases.with_irq(l, 1, data, at=0)
+        lines.append(cases.set_steps(l, 1))
+        meta[cid] = ("mode0-long-data", "len=%d off=%d shape=%d" % (ln, off, shape))
     # every encoding of every table (implemented or not) once with NO device attached and once with one: an I/O handler that
     # forgets the nil check, an unsupported opcode that is not consumed
     for j, e in enumerate(encs):
